@@ -1,22 +1,14 @@
-"""Per-property configuration of bin/check."""
+"""Per-property configuration of bin/check: one module bin/propcfg/Cxx.py per claimed property (CFG dict)."""
+import importlib
+import os
+import re
 
-KERNEL = "Lean 4.33.0 kernel (lake build; leanchecker re-check on the thorough tier); axioms allowed: propext, Classical.choice, Quot.sound — audited with #print axioms on every property theorem; no sorry, native_decide, bv_decide or own axioms"
-TRANSLATOR = "tools/extract (go/packages + go/types + regexp/syntax): regenerates SafeHtml/Generated/*.lean from /repo's working tree on every run; trusted to print what the source says, cross-checked because the model runs on the generated facts in the correspondence"
-CORR = "tools/harness + Main.lean driver: correspondence of the hand-written Lean model with the real code on generated inputs (compared on results of exported functions / verif-tag wrappers only)"
-RX = "Go regexp semantics modelled by SafeHtml.Rx.Match (leftmost-first backtracking over UTF-8-decoded runes, invalid byte = U+FFFD); validated by the correspondence on the repo's own patterns"
-UTF8 = "Go UTF-8 decoding/encoding modelled by SafeHtml.Utf8 (utf8.DecodeRuneInString tables)"
+PROPS = {}
+_here = os.path.join(os.path.dirname(os.path.abspath(__file__)), "propcfg")
+for _fn in sorted(os.listdir(_here)):
+    _m = re.match(r"(C\d+)\.py$", _fn)
+    if _m:
+        PROPS[_m.group(1)] = importlib.import_module("propcfg." + _m.group(1)).CFG
 
-PROPS = {
-    "C18": {
-        "module": "SafeHtml.Props.C18",
-        "trusted_base": [KERNEL, TRANSLATOR, CORR, RX, UTF8,
-                         "specification vocabulary: byte-level recogniser specIdent of [A-Za-z][-_A-Za-z0-9]* (Props/C18.lean, Oracle/C18.lean)",
-                         "modelled, not verified: regexp.MatchString, fmt.Sprintf in the panic message (irrelevant to results), the verif-tag wrappers that convert string to stringConstant"],
-        "assumptions": ["a Go panic of the constructor is the model's `none`"],
-        "level_text": "Theorems C18_const, C18_prefix (result ∈ [A-Za-z][-_A-Za-z0-9]* and = prefix-hyphen-value), C18_const_complete and C18_prefix_rejects are proved in Lean for every byte string over a model of identifier.go whose two regexes are regenerated from the source on every run (rx_* obligations prove the regenerated regex trees equal the byte-level recogniser); the model is compared with the real constructors on all short strings and seeded hostile strings, and the property oracle is applied to every real output.",
-        "level_note": "Trusted: Lean kernel; translator; regexp modelled by Rx.Match (validated by correspondence); UTF-8 decoder model; verif-tag wrappers converting string to stringConstant. Proof is about the model; the tie to the code is the regenerated regex trees + the correspondence run.",
-        "technique": "Lean 4 proof (regex tree ⇒ byte recogniser lemmas) + regenerated regexes + differential correspondence",
-    },
-}
-
+# properties not claimed, with the reason (kept current by hand)
 NOT_APPLICABLE = {}
